@@ -337,8 +337,9 @@ def main():
     ap.add_argument("--report", required=True)
     ap.add_argument("--dump", action="store_true")
     ap.add_argument("--update", action="store_true")
+    ap.add_argument("--cover", default=None, help="use another cover table (dry runs of handwritten_rules.py --out)")
     a = ap.parse_args()
-    table_path = os.path.join(HERE, "handwritten_cover.json")
+    table_path = a.cover or os.path.join(HERE, "handwritten_cover.json")
     table = json.load(open(table_path)) if os.path.exists(table_path) else {"items": {}}
     known = table.get("items", {})
     defaults = table.get("file_defaults", {})
